@@ -13,6 +13,7 @@ import (
 	"fmt"
 	"math/rand"
 	"os"
+	"reflect"
 	"sync"
 
 	stackage "github.com/JesseCoretta/go-stackage"
@@ -52,7 +53,13 @@ func answerQuery(root, copy2 stackage.Stack, q map[string]any) (ans any) {
 	case "Back":
 		return found(root.Back())
 	case "Traverse":
-		return found(root.Traverse(intsOf(q["p"])...))
+		path := append(make([]int, 0, 8), intsOf(q["p"])...) // the caller's own slice, with spare capacity
+		given := append([]int{}, path...)
+		v, ok := root.Traverse(path...)
+		if !reflect.DeepEqual(path, given) {
+			return map[string]any{"ok": "false", "v": Node{"t": "leaf", "ty": "str", "v": Tokenize(fmt.Sprintf("path-rewritten:%v->%v", given, path))}}
+		}
+		return found(v, ok)
 	case "Unmarshal":
 		u, _ := root.Unmarshal()
 		return ProjectU(u)
